@@ -260,6 +260,18 @@ def sumOk (tol : Rat) (imgs : List Op) : Bool :=
 def jwFermionOk (tol : Rat) (A : Op) : Bool := sumOk tol (A.map fun tc => jwTerm tol tc.1 tc.2)
 def jwMajoranaOk (tol : Rat) (A : MOp) : Bool := sumOk tol (A.map fun tc => jwMajTerm tc.1 tc.2)
 
+/-- the single-string operators `jordan_wigner_one_body` adds up, in order -/
+def oneBodyImgs (p q : Nat) (c : GQ) : List Op :=
+  if p != q then
+    let p' := if p > q then q else p
+    let q' := if p > q then p else q
+    let c' := if p > q then c.conj else c
+    (hopList c').map fun (x, a, b) => mk .qubit ([(p', a)] ++ zs (p' + 1) q' ++ [(q', b)]) (rl (mkRat 1 2 * x))
+  else
+    [mk .qubit [] (half * c), mk .qubit [(p, 3)] (rl (-(mkRat 1 2)) * c)]
+
+def jwOneBodyOk (tol : Rat) (p q : Nat) (c : GQ) : Bool := sumOk tol (oneBodyImgs p q c)
+
 end C04
 end Model
 end OFV
